@@ -40,7 +40,8 @@ ASSUMPTIONS = [
 ]
 
 BIG = "y" * 10000
-SCHEMA = {"m": [("api", 3), ("fs", 2)], "a": [("style", 3), ("exit", 2), ("sf", 2)]}
+SCHEMA = {"m": [("api", 3), ("fs", 2)], "a": [("style", 3), ("exit", 2), ("sf", 2), ("at", 2)]}
+# at: 1 -> the empty action type (start_action() without a type)
 
 
 def BOUNDS(tier):
@@ -51,8 +52,79 @@ def _programs(tier):
     b = BOUNDS(tier)
     out = []
     for p in progs.programs(b["max_nodes"], b["devs"], SCHEMA):
+        for x in progs.walk(p):
+            if x[0] == "a" and x[1].get("at"):
+                x[1]["at"] = 2
         out.append(p)
     return out
+
+
+def run_concurrent_slow_destination():
+    """Another thread is parked inside a slow second destination while this thread logs and
+    acknowledges: what was acknowledged must already be in the file (a kill at that instant must not
+    lose it)."""
+    import threading
+
+    events = []
+    viol = []
+
+    def go():
+        parked = threading.Event()
+        release = threading.Event()
+
+        def slow(m):
+            if m.get("who") == "worker":
+                parked.set()
+                release.wait(10)
+
+        eliot.add_destinations(FileDestination(file=Device(events)), slow)
+        t = threading.Thread(target=lambda: eliot.log_message("w", who="worker"))
+        t.start()
+        if not parked.wait(10):
+            release.set()
+            t.join()
+            return None
+        done = []
+
+        def main_logs():
+            with eliot.start_action(action_type="main"):
+                eliot.log_message("m", who="main", n=1)
+                done.append(len([e for e in events if e[0] == "flush"]))
+                eliot.log_message("m", who="main", n=2)
+                done.append(len([e for e in events if e[0] == "flush"]))
+
+        m = threading.Thread(target=main_logs)
+        m.start()
+        m.join(5)
+        blocked = m.is_alive()
+        snapshot = list(events)
+        acked = list(done)
+        release.set()
+        t.join()
+        m.join()
+        return blocked, snapshot, acked
+
+    r = world.run_isolated(go)
+    if r is None:
+        return [("harness:worker-never-reached-slow-destination", {})]
+    blocked, snapshot, acked = r
+    if blocked:
+        return []  # logging waits for the other thread: slower, but nothing acknowledged is missing
+    # at the instant of the (virtual) kill: durable = everything written and flushed
+    durable = b""
+    unflushed = b""
+    for e in snapshot:
+        if e[0] == "write":
+            unflushed += e[1]
+        else:
+            durable += unflushed
+            unflushed = b""
+    lines = [json.loads(l) for l in durable.split(b"\n") if l]
+    mine = [d for d in lines if d.get("who") == "main"]
+    if len(mine) != 2:
+        viol.append(("acknowledged-message-lost:other-thread-inside-slow-destination",
+                     {"acknowledged": 2, "in_file": len(mine), "file_lines": len(lines)}))
+    return viol
 
 
 def units(tier):
@@ -67,12 +139,15 @@ def units(tier):
     big = next((i for i, p in enumerate(ps) if any(x[1].get("fs") == 1 or x[1].get("sf") == 1 for x in progs.walk(p)) and len(progs.walk(p)) >= 2), 0)
     for fk in FILE_KINDS:
         out.append(["real", big, fk])
+    out.append(["concurrent"])
     return out
 
 
 def cases(unit, tier):
     ps = _programs(tier)
-    if unit[0] == "mem":
+    if unit[0] == "concurrent":
+        yield ["concurrent"]
+    elif unit[0] == "mem":
         for i in range(unit[1], unit[2]):
             yield ["mem", ps[i]]
     else:
@@ -401,6 +476,10 @@ def run_real(prog, kind="binary-buffered"):
 
 
 def run_case(case):
+    if case[0] == "concurrent":
+        v = run_concurrent_slow_destination()
+        world.fresh()
+        return Result(outcome=["concurrent", len(v)], violations=v)
     if case[0] == "mem":
         points, nontrivial, nlines, viol = run_mem(case[1])
         key = "crash_points_in_memory"
